@@ -99,8 +99,26 @@ def check_tree(d, M, seed):
                 out.append((sig, "files differing between generations: %r" % diff[:4]))
             else:
                 out.append(("C17:outcome-differs-between-generations", repr([r if isinstance(r, str) else "ok" for r in results])))
+        # regenerating into the SAME output directory after replacing a referenced file by one of the same size
+        assets = [(rel, a) for rel, dd in gen_site.walk(d) for a in dd["assets"] if a["data"]]
+        if assets and isinstance(results[0], dict):
+            rel, a = assets[seed % len(assets)]
+            ap = (src / rel / a["file"]) if rel else (src / a["file"])
+            old = a["data"]
+            a["data"] = bytes((x + 1) % 256 for x in old)
+            ap.write_bytes(a["data"])
+            try:
+                with Listing("sorted"):
+                    generate_static_site(src, scratch / "out0", M)
+                fresh = scratch / "out-fresh-asset"
+                with Listing("sorted"):
+                    generate_static_site(src, fresh, M)
+                if digest(scratch / "out0") != digest(fresh):
+                    out.append(("C17:regeneration-into-same-directory-differs-from-fresh", "after replacing %s by a file of the same size" % a["file"]))
+            except Exception as e:  # noqa
+                out.append(("C17:regeneration-after-edit-raises", type(e).__name__))
         # an edit between two generations in one process is fully reflected (cache transparency)
-        recs = [(rel, r) for rel, dd in gen_site.walk(d) for r in dd["recipes"]]
+        recs = [(rel, r) for rel, dd in gen_site.walk(d) for r in dd["recipes"] if r.get("raw") is None]
         if recs and isinstance(results[0], dict):
             rel, r = recs[seed % len(recs)]
             old_title = r["title"]
@@ -161,6 +179,10 @@ def gen_case(rng, force_equal=False):
         d["recipes"][0]["title"] = d["recipes"][1]["title"] = "Same"
         d["recipes"][0]["servings"] = d["recipes"][1]["servings"] = 2
     else:
+        if rng.random() < 0.3:
+            # a recipe whose first heading is empty: its title is the empty string
+            d["recipes"].append(dict(file="untitled.md", title="", servings=None, links=[], raw="#\n\nSome {2} text.\n\n    1 x\n"))
+        c14.gen_links(rng, d)
         # distinct titles among siblings
         for rel, dd in gen_site.walk(d):
             for i, r in enumerate(dd["recipes"]):
